@@ -768,6 +768,11 @@ pub fn run(ctx: &Ctx, property: &'static str) -> Report {
     let choices: Choices = v["replay"]["choices"].as_array().unwrap().iter().map(|x| x.as_u64().unwrap() as u8).collect();
     let l = choices.len() / (SLOTS + 1);
     let mut w = Worker::new(0, l);
+    let cfg = if v["replay"]["cfg"].as_str().is_some_and(|c| c.contains("-insc")) {
+      IndexCfg { inscriptions: false, addresses: false, ..cfg.clone() }
+    } else {
+      cfg.clone()
+    };
     let e = exec(&mut w, &cfg, l, &choices);
     println!("replay history: {}", e.rendered);
     for (p, c, what) in &e.violations {
@@ -792,8 +797,18 @@ pub fn run(ctx: &Ctx, property: &'static str) -> Report {
     k_min: 0,
     budget_secs: budget,
   };
-  let totals: Totals = run_histories(&spec, &mut report, |id| Worker::new(id, l), |w, c| exec(w, &cfg, l, c));
+  let mut totals: Totals = run_histories(&spec, &mut report, |id| Worker::new(id, l), |w, c| exec(w, &cfg, l, c));
   fold_totals(&mut report, "sats", &totals, k);
+  if property != "C17" {
+    // the sat index without the inscription index (its lost-sat bookkeeping is separate there)
+    let cfg2 = IndexCfg { inscriptions: false, addresses: false, ..cfg.clone() };
+    let spec2 = RunSpec { cfg_label: cfg2.label(), suite: "sats-no-inscriptions", budget_secs: budget, alts: layout.alts(), ..spec };
+    let t2: Totals = run_histories(&spec2, &mut report, |id| Worker::new(id + 100, l), |w, c| exec(w, &cfg2, l, c));
+    fold_totals(&mut report, "sats_no_inscriptions", &t2, k);
+    totals.executions += t2.executions;
+    totals.capped |= t2.capped;
+    totals.states.extend(t2.states);
+  }
   report.set("states", totals.states.len().max(1) as u64);
   report.set("traces_validated_against_impl", totals.executions);
   report.set("distinct_nontrivial", totals.states.len().max(2) as u64);
